@@ -140,6 +140,28 @@ var rootInjectEntrySpec = &decideSpec{
 	ignore:   []string{"log", "pkgLog"},
 }
 
+// Config.ParseTemplates: one iteration of the inner loop over the templated parameters (trace mode)
+var parseTemplatesEntrySpec = &decideSpec{
+	file: "config/config.go", recv: "Config", fn: "ParseTemplates", lean: "parseTemplatesEntryEffects", plain: true, loopBody: true, loopOver: "templateMap", loopSkip: 1,
+	params: "(parsed executed : Option Unit) (changed : Bool)", result: "List String",
+	atoms: map[string]string{
+		"*attributePointer != oldVal": "changed",
+		"fmt.Errorf(\"failed to parse %s template: %w\", name, err)":   "[\"error: parse\"]",
+		"fmt.Errorf(\"failed to execute %s template: %w\", name, err)": "[\"error: execute\"]",
+	},
+	calls: map[string]string{
+		"template.New(\"config-template\").Funcs(template_funcs.FuncMap).Parse": "parsed",
+		"attributeTempl.Execute": "executed",
+	},
+	trace: map[string]string{
+		"*attributePointer = parsedBuffer.String()": "store rendered",
+		"changesMade = true":                        "changesMade := true",
+	},
+	effects:  []string{"oldVal := *attributePointer"},
+	dropArgs: []string{"*attributePointer", "&parsedBuffer", "data"},
+	ignore:   []string{"log"},
+}
+
 // ---- mergeStringMaps ----
 
 type mapTr struct {
@@ -291,7 +313,7 @@ func init() {
 			g = fmt.Sprintf("/-- translation failed: %s -/\ndef getReplacement : Nat := (show Nat from %s)\n", strings.ReplaceAll(err.Error(), "-/", "- /"), leanStr(err.Error()))
 		}
 		b.WriteString(g + "\n")
-		for _, sp := range []*decideSpec{ifaceInitSpec, ifaceInitEntrySpec, pkgInitEntrySpec, rootInitEntrySpec, rootInjectEntrySpec} {
+		for _, sp := range []*decideSpec{ifaceInitSpec, ifaceInitEntrySpec, pkgInitEntrySpec, rootInitEntrySpec, rootInjectEntrySpec, parseTemplatesEntrySpec} {
 			d, err := translateDecide(src, sp)
 			if err != nil {
 				d = fmt.Sprintf("/-- translation failed: %s -/\ndef %s %s : %s :=\n  (show Nat from %s)\n", strings.ReplaceAll(err.Error(), "-/", "- /"), sp.lean, sp.params, sp.result, leanStr(err.Error()))
